@@ -321,11 +321,17 @@ def validate (cfg : Cfg) (current next : Status) : Bool :=
   if Gen.G.validateNoTransitions nodes.length then false
   else nodes.any (fun n => Gen.G.validateFound n next)
 
+/-- the record the updater builds from the in-memory run: Completed iff the destination is terminal, the new status,
+the object the function left behind, update time now, description of the new status; identity, creation time and
+version (before the +1 of `updateRecord`) from the run -/
+def updaterRec (cfg : Cfg) (next : Status) (run : Rec) (newObj : Obj) (now : Int) : Rec :=
+  { run with runState := (if Graph.isTerminal cfg.graph next then Gen.RunStateCompleted else Gen.RunStateRunning),
+             status := next, obj := newObj, updatedAt := now, descr := next }
+
 /-- the updater closure of `newUpdater`: `run` is the in-memory run handed to the user function -/
 def updater (cfg : Cfg) (current next : Status) (run : Rec) (newObj : Obj) : M Unit := do
   let s ← getSys
-  let runState := if Graph.isTerminal cfg.graph next then Gen.RunStateCompleted else Gen.RunStateRunning
-  let upd : Rec := { run with runState := runState, status := next, obj := newObj, updatedAt := s.now, descr := next }
+  let upd : Rec := updaterRec cfg next run newObj s.now
   match (← lookup run.runId) with
   | none => throwA (.err errNotFound)
   | some latest =>
@@ -342,6 +348,25 @@ structure FnRes where
 
 /-- `processCallback` for one registered callback; `depth` bounds re-entrancy (user functions calling `Callback`) -/
 def viewRec (r : Rec) : Rec := { r with runState := RS.view r.runState }
+
+/-- `processCallback`, the guards on the latest record: other status → nothing; stopped run → nothing; otherwise
+invoke the callback function (`runner`), skip or update -/
+def callbackGate (cfg : Cfg) (status : Status) (wr : Rec) (runner : Rec → M (Except Abort FnRes × Rec)) : M Unit :=
+  if Gen.G.callbackSkip wr.status status then pure ()
+  else if Gen.stopped wr.runState then pure ()
+  else do
+    let run := viewRec wr
+    match (← runner run) with
+    | (.error a, _) => throwA a
+    | (.ok res, _) =>
+      if Gen.skipValues.contains res.next then pure ()
+      else updater cfg status res.next run res.obj
+
+/-- `processCallback` for one registered callback -/
+def callbackOne (cfg : Cfg) (fid : Fid) (status : Status) (runner : Rec → M (Except Abort FnRes × Rec)) : M Unit := do
+  match (← latest fid) with
+  | none => throwA (.err errNotFound)
+  | some wr => callbackGate cfg status wr runner
 
 mutual
 /-- a step / callback / timeout function invoked on the in-memory run `run` (already viewed through `buildRun`);
@@ -372,22 +397,11 @@ def runFn (cfg : Cfg) (kind : String) (run mem : Rec) : Nat → Bool → M (Exce
       runFn cfg kind run mem fuel false
     | _ => pure (.error (.err 98), mem)
 
-/-- `Workflow.Callback` -/
+/-- `Workflow.Callback`: every callback registered on the status, in registration order, stopping at the first error -/
 def callbackApi (cfg : Cfg) (fid : Fid) (status : Status) : Nat → M Unit
   | 0 => throwA (.err 99)
-  | fuel + 1 => (cfg.callbacksAt status).forM (fun _ => do
-    match (← latest fid) with
-    | none => throwA (.err errNotFound)
-    | some wr =>
-      if Gen.G.callbackSkip wr.status status then pure ()
-      else if Gen.stopped wr.runState then pure ()
-      else do
-        let run := viewRec wr
-        match (← runFn cfg "callback" run run fuel true) with
-        | (.error a, _) => throwA a
-        | (.ok res, _) =>
-          if Gen.skipValues.contains res.next then pure ()
-          else updater cfg status res.next run res.obj)
+  | fuel + 1 => (cfg.callbacksAt status).forM (fun _ =>
+      callbackOne cfg fid status (fun run => runFn cfg "callback" run run fuel true))
 end
 
 def fuelDefault : Nat := 6
@@ -422,39 +436,54 @@ def maybePause (cfg : Cfg) (n : Int) (p : Proc) (mem : Rec) (e : Abort) : M Bool
 
 /-! ## handlers -/
 
+/-- `stepConsumer`, after the guards: build the run, invoke the function, pause-or-fail on error, skip or update -/
+def stepRun (cfg : Cfg) (p : Proc) (pauseAfter : Int) (record : Rec) (fn : Rec → M (Except Abort FnRes × Rec)) : M Unit := do
+  let run := viewRec record
+  match (← fn run) with
+  | (.error err, mem) => do
+    -- `mem`: a failed Pause/Cancel inside the function leaves the controller's record changed
+    let paused ← maybePause cfg pauseAfter p mem err
+    if paused then pure () else throwA err
+  | (.ok res, _) =>
+    if Gen.skipValues.contains res.next then pure ()
+    else updater cfg record.status res.next run res.obj
+
+/-- `stepConsumer`, the guards on the record the store returned: version gate (old: skip; newer: stale-read error),
+stopped runs are skipped -/
+def stepGate (cfg : Cfg) (p : Proc) (pauseAfter : Int) (e : Event) (record : Rec)
+    (fn : Rec → M (Except Abort FnRes × Rec)) : M Unit :=
+  if Gen.G.stepSkipOld record.version e.version then pure ()
+  else if Gen.G.stepStale record.version e.version then throwA (.err errStale)
+  else if Gen.G.stepStopped record.runState then pure ()
+  else stepRun cfg p pauseAfter record fn
+
 /-- `stepConsumer` with a consumer function `fn` (the step function, or the timeout inserter's wrapper) -/
-def stepHandle (cfg : Cfg) (p : Proc) (status : Status) (pauseAfter : Int) (e : Event)
+def stepHandle (cfg : Cfg) (p : Proc) (_status : Status) (pauseAfter : Int) (e : Event)
     (fn : Rec → M (Except Abort FnRes × Rec)) : M Unit := do
   match (← lookup e.runId) with
   | none => pure ()
-  | some record =>
-    if Gen.G.stepSkipOld record.version e.version then pure ()
-    else if Gen.G.stepStale record.version e.version then throwA (.err errStale)
-    else if Gen.G.stepStopped record.runState then pure ()
-    else do
-      let run := viewRec record
-      match (← fn run) with
-      | (.error err, mem) => do
-        -- `mem`: a failed Pause/Cancel inside the function leaves the controller's record changed
-        let paused ← maybePause cfg pauseAfter p mem err
-        if paused then pure () else throwA err
-      | (.ok res, _) =>
-        if Gen.skipValues.contains res.next then pure ()
-        else updater cfg record.status res.next run res.obj
+  | some record => stepGate cfg p pauseAfter e record fn
+
+/-- what the inserter does with the answer of one timer function: create a timer for a non-zero time, nothing for the
+zero time, fail on an error -/
+def inserterOutcome (status : Status) (run : Rec) (now : Int) : Outcome → M Unit
+  | .timer sec =>
+    call s!"tcreate(r{run.runId},st{status},{now + sec})" (fun s => ("", .ok (), s.timerCreate run.fid run.runId status (s.now + sec)))
+  | .zero => pure ()
+  | .zeroErr => throwA (.err 97)
+  | .err k => throwA (.err k)
+  | _ => throwA (.err 98)
+
+/-- one timeout configuration of the status: invoke its timer function, act on the answer -/
+def inserterOne (status : Status) (run : Rec) : M Unit := do
+  let out ← nextOutcome
+  emit s!"fn:timer({recStr run})->{out.str}"
+  let s ← getSys
+  inserterOutcome status run s.now out
 
 /-- the consumer function of `timeoutAutoInserterConsumer` -/
 def inserterFn (cfg : Cfg) (status : Status) (run : Rec) : M (Except Abort FnRes × Rec) := do
-  let r ← tryM ((cfg.timeoutsAt status).forM (fun _ => do
-    let out ← nextOutcome
-    emit s!"fn:timer({recStr run})->{out.str}"
-    let s ← getSys
-    match out with
-    | .timer sec =>
-      call s!"tcreate(r{run.runId},st{status},{s.now + sec})" (fun s => ("", .ok (), s.timerCreate run.fid run.runId status (s.now + sec)))
-    | .zero => pure ()
-    | .zeroErr => throwA (.err 97)
-    | .err k => throwA (.err k)
-    | _ => throwA (.err 98)))
+  let r ← tryM ((cfg.timeoutsAt status).forM (fun _ => inserterOne status run))
   match r with
   | .ok _ => pure (.ok ⟨0, run.obj⟩, run)
   | .error a => pure (.error a, run)
@@ -476,19 +505,28 @@ def hookHandle (_cfg : Cfg) (rs : RunState) (e : Event) : M Unit := do
 
 def scrub (o : Obj) : Obj := if o > -500000 then -1000000 - o else o
 
+/-- the wrapper `WithCustomDelete` builds: unmarshal (fails on an object that does not decode), apply the user's
+function, re-marshal -/
+def customDeleteFn (record : Rec) : M Obj :=
+  if !decodable record.obj then throwA (.err 96)
+  else do
+    let out ← nextOutcome
+    emit s!"fn:delete(o{record.obj})->{out.str}"
+    match out with
+    | .err k => throwA (.err k)
+    | .exhausted => throwA (.err 98)
+    | _ => pure (scrub record.obj)
+
+/-- the replacement object: the custom delete function's result, or the fixed default marker -/
+def deleteObj (cfg : Cfg) (record : Rec) : M Obj :=
+  if cfg.customDelete then customDeleteFn record else pure (-7777777 : Int)
+
+/-- `runDelete` -/
 def deleteHandle (cfg : Cfg) (e : Event) : M Unit := do
   match (← lookup e.runId) with
   | none => throwA (.err errNotFound)
-  | some record =>
-    let newObj ← if cfg.customDelete then (do
-        if !decodable record.obj then throwA (.err 96)
-        let out ← nextOutcome
-        emit s!"fn:delete(o{record.obj})->{out.str}"
-        match out with
-        | .err k => throwA (.err k)
-        | .exhausted => throwA (.err 98)
-        | _ => pure (scrub record.obj))
-      else pure (-7777777 : Int)
+  | some record => do
+    let newObj ← deleteObj cfg record
     updateRecord cfg { record with obj := newObj, runState := Gen.RunStateDataDeleted }
 
 def retryHandle (cfg : Cfg) (e : Event) : M Unit := do
@@ -614,21 +652,30 @@ def processTimeout (cfg : Cfg) (p : Proc) (status : Status) (shared : Rec) (t : 
       call s!"tcomplete({t.id})" (fun s => ("", .ok (), s.timerComplete t.id))
       pure mem
 
+/-- what `ListValid` answers for the queried instant: timers of the status, not completed, expiry not after it -/
+def dueTimers (s : Sys) (status : Status) (queried : Int) : List Timer :=
+  s.timers.filter (fun t => t.status == status && !t.completed && !Gen.G.memTimeoutNotDue t.expireAt queried)
+
+/-- the poller's handling of one due timer: re-read the run; cancel the timer when the run moved on or finished; skip
+stopped runs; otherwise run every timeout configuration of the status -/
+def pollGate (cfg : Cfg) (p : Proc) (status : Status) (t : Timer) (r : Rec) : M Unit :=
+  if Gen.G.pollCancel r.status status r.runState then
+    call s!"tcancel({t.id})" (fun s => ("", .ok (), s.timerCancel t.id))
+  else if Gen.G.pollSkipStopped r.runState then pure ()
+  else do
+    let _ ← (cfg.timeoutsAt status).foldlM (fun shared _ => processTimeout cfg p status shared t) r
+    pure ()
+
+def pollTimer (cfg : Cfg) (p : Proc) (status : Status) (t : Timer) : M Unit := do
+  match (← lookup t.runId) with
+  | none => throwA (.err errNotFound)
+  | some r => pollGate cfg p status t r
+
 /-- one iteration of the `pollTimeouts` loop, from the `ListValid` gate -/
 def pollOp (cfg : Cfg) (p : Proc) (status : Status) (queried : Int) : M Unit := do
   let due ← call s!"listvalid(st{status})" (fun s =>
-    let l := s.timers.filter (fun t => t.status == status && !t.completed && !Gen.G.memTimeoutNotDue t.expireAt queried)
-    ("(" ++ " ".intercalate (l.map (fun t => toString t.id)) ++ ")", .ok l, s))
-  due.forM (fun t => do
-    match (← lookup t.runId) with
-    | none => throwA (.err errNotFound)
-    | some r =>
-      if Gen.G.pollCancel r.status status r.runState then
-        call s!"tcancel({t.id})" (fun s => ("", .ok (), s.timerCancel t.id))
-      else if Gen.G.pollSkipStopped r.runState then pure ()
-      else do
-        let _ ← (cfg.timeoutsAt status).foldlM (fun shared _ => processTimeout cfg p status shared t) r
-        pure ())
+    ("(" ++ " ".intercalate ((dueTimers s status queried).map (fun t => toString t.id)) ++ ")", .ok (dueTimers s status queried), s))
+  due.forM (pollTimer cfg p status)
 
 /-! ## one operation of a background process -/
 
@@ -666,6 +713,8 @@ def hasReceiver (p : Proc) (ps : PState) : Bool :=
   isConsumer p && (match ps with | .atRecv => true | .lagWait _ _ => true | _ => false)
 
 def isCancelled : M Bool := fun _ st => (.ok st.cancelled, st)
+/-- did this operation open a receiver (a `newrecv` call that returned normally)? -/
+def openedReceiver : M Bool := fun _ st => (.ok (st.obs.any (fun l => l.startsWith "newrecv(" && l.endsWith ")")), st)
 
 /-- `runOnce` around the body: on error close the receiver (if open) and back off; when the lease context is cancelled
 (by a crash fault or a swallowed cancellation: the loops re-check `ctx.Err()`), go back for the role without back-off -/
@@ -677,7 +726,7 @@ def procOp (cfg : Cfg) (p : Proc) : M Unit := do
   | .ok ps', false => modifySys (·.setPState p ps')
   | _, _ => do
     -- a receiver is open if it was open before, or if this operation opened it (needRole: newrecv succeeded)
-    let opened ← (fun _ st => (.ok (st.obs.any (fun l => l.startsWith "newrecv(" && l.endsWith ")")), st) : M Bool)
+    let opened ← openedReceiver
     emitIf (hasReceiver p (s.pstate p) || (isConsumer p && s.pstate p == .needRole && opened)) "close"
     let s' ← getSys
     modifySys (·.setPState p (if dead then .needRole else .backoff (s'.now + cfg.backoffSec)))
@@ -710,23 +759,27 @@ def errClass : Abort → String
     else if k == 313 then "err:nohandle"
     else "err:user"
 
-def triggerApi (cfg : Cfg) (fid : Fid) (start : Status) (n : Obj) : M String := do
-  let g := cfg.graph
-  let startAt := if Gen.G.triggerUseRequested start then some start else Graph.defaultStart g
-  match startAt with
+/-- the status a new run starts at: the requested one when non-zero, else the default starting point — if declared -/
+def triggerStart (cfg : Cfg) (start : Status) : Option Status :=
+  match (if Gen.G.triggerUseRequested start then some start else Graph.defaultStart cfg.graph) with
+  | none => none
+  | some st => if Graph.isValid cfg.graph st then some st else none
+
+/-- the record `trigger` builds (version 0 before the +1 of `updateRecord`) -/
+def triggerRec (fid : Fid) (st : Status) (n : Obj) (now : Int) (rid : RunId) : Rec :=
+  { runId := rid, fid := fid, runState := Gen.RunStateInitiated, status := st, obj := n,
+    createdAt := now, updatedAt := now, version := 0, descr := st }
+
+def triggerApi (cfg : Cfg) (fid : Fid) (start : Status) (n : Obj) : M String :=
+  match triggerStart cfg start with
   | none => throwA (.err 311)
-  | some st =>
-    if !Graph.isValid g st then throwA (.err 311)
+  | some st => do
+    let last ← latest fid
+    if Gen.G.triggerInProgress ((last.map (·.runState)).getD Gen.RunStateUnknown) then throwA (.err 310)
     else do
-      let last ← latest fid
-      let rs := (last.map (·.runState)).getD Gen.RunStateUnknown
-      if Gen.G.triggerInProgress rs then throwA (.err 310)
-      else do
-        let s ← getSys
-        let rid := s.runs.length
-        updateRecord cfg { runId := rid, fid := fid, runState := Gen.RunStateInitiated, status := st, obj := n,
-                           createdAt := s.now, updatedAt := s.now, version := 0, descr := st }
-        pure s!"ok:r{rid}"
+      let s ← getSys
+      updateRecord cfg (triggerRec fid st n s.now s.runs.length)
+      pure s!"ok:r{s.runs.length}"
 
 def opOfString : String → Option RS.CtlOp
   | "pause" => some .pause | "resume" => some .resume | "cancel" => some .cancel | "delete" => some .deleteData
